@@ -46,6 +46,33 @@ sinv_p = _mk("sinv", lambda a: _orig["inv"](a), lambda a: _sa(a.shape, a.dtype))
 sexpm_p = _mk("sexpm", lambda a: _orig["expm"](a), lambda a: _sa(a.shape, a.dtype))
 
 
+def _adj_impl(a):
+    """adjugate by explicit cofactors (small matrices; valid for singular input)"""
+    n = a.shape[-1]
+    if n == 0:
+        return a
+    if n == 1:
+        return jnp.ones_like(a)
+    rows = []
+    for i in range(n):
+        cols = []
+        for j in range(n):
+            # adj[i, j] = (-1)^(i+j) det(minor with row j and column i removed)
+            r = [k for k in range(n) if k != j]
+            c = [k for k in range(n) if k != i]
+            minor = a[..., r, :][..., :, c]
+            cols.append(((-1) ** (i + j)) * _orig["det"](minor))
+        rows.append(jnp.stack(cols, axis=-1))
+    return jnp.stack(rows, axis=-2)
+
+
+sadj_p = _mk("sadj", _adj_impl, lambda a: _sa(a.shape, a.dtype))
+
+
+def sadj(a):
+    return sadj_p.bind(jnp.asarray(a))
+
+
 def _qr_impl(a):
     q, r = _orig["qr"](a)
     return [q, r]
@@ -101,10 +128,10 @@ def seigh(a, *args, **kw):
 
 
 def _det_jvp(primals, tangents):
+    # d det(A) = tr(adj(A) dA): the cofactor form is valid for singular A as well (JAX's own rule uses
+    # _cofactor_solve for the same reason; the padded excitation tables of multislater produce singular blocks)
     (a,), (da,) = primals, tangents
-    d = sdet(a)
-    ai = sinv(a)
-    return d, d * jnp.einsum("...ij,...ji->...", ai, da)
+    return sdet(a), jnp.einsum("...ij,...ji->...", sadj(a), da)
 
 
 def _inv_jvp(primals, tangents):
